@@ -13,7 +13,7 @@ checks, na = [], []
 for p in props:
     pid = p['id']
     s = specs.get(pid)
-    if not s:
+    if not s or not s.get('claimed'):
         na.append({'property_id': pid, 'reason': 'not yet claimed: the model, theorems and correspondence driver for this property are still being built (see DESIGN.md section 5); machine-checked proof does apply and is planned'})
         continue
     checks.append({
